@@ -72,3 +72,43 @@ Definition flank_exts (seq : dna) (start len : nat) : N :=
   let l := if 0 <? start then (2 ^ nth (start - 1) seq 0)%N else 0%N in
   let r := if start + len <? length seq then (2 ^ nth (start + len) seq 0)%N else 0%N in
   (l + 16 * r)%N.
+
+(* ---- C08 on the OUTPUT of msp_sequence over a read set: what the checker of Check/ScanCheck.v decides ---- *)
+Section MspSpec.
+  Variable k : nat.
+  Variable rcmode : bool.
+  Definition piece := (N * N * dna)%type.      (* (bucket, extensions, piece) *)
+  (* the identity of a k-mer: itself, or its canonical form in reverse-complement mode *)
+  Definition kkey (x : dna) : dna := if rcmode then canon x else x.
+
+  (* the pieces tile the read from [start] on: exact substrings with the flanking bases as extensions,
+     consecutive pieces overlapping by k-1, the last one ending at the read end *)
+  Fixpoint pieces_ok (read : dna) (start : nat) (out : list piece) : Prop :=
+    match out with
+    | [] => False
+    | (bucket, exts, pc) :: r =>
+        let len := length pc in
+        k <= len /\ pc = sub start len read /\ exts = flank_exts read start len /\
+        match r with
+        | [] => start + len = length read
+        | _ :: _ => pieces_ok read (start + len - (k - 1)) r
+        end
+    end.
+  Definition read_ok (ro : dna * list piece) : Prop :=
+    if length (fst ro) <? k then snd ro = [] else pieces_ok (fst ro) 0 (snd ro).
+
+  (* the k-mer starting at [i] lies in a piece carrying bucket [b] *)
+  Fixpoint occ_in (start : nat) (out : list piece) (i : nat) (b : N) : Prop :=
+    match out with
+    | [] => False
+    | (bucket, _, pc) :: r =>
+        (start <= i /\ i + k <= start + length pc /\ b = bucket) \/
+        occ_in (start + length pc - (k - 1)) r i b
+    end.
+  Definition occ (l : list (dna * list piece)) (x : dna) (b : N) : Prop :=
+    exists read out i, In (read, out) l /\ k <= length read /\ occ_in 0 out i b /\ x = kkey (kmer_at k read i).
+
+  (* piece exactness for every read, and one bucket per k-mer identity across ALL occurrences in the set *)
+  Definition msp_out_ok (l : list (dna * list piece)) : Prop :=
+    Forall read_ok l /\ forall x b c, occ l x b -> occ l x c -> b = c.
+End MspSpec.
